@@ -201,6 +201,111 @@ theorem discard_exact (s : SStack α) (n : Nat) (h : n ≤ s.items.length) :
     (s.step (.discard n)).1.items = s.items.drop n ∧ (s.step (.discard n)).2 = .unit := by
   simp [SStack.step, Nat.not_lt.mpr h]
 
+
+/-! ### LIFO over whole histories, and the read operations -/
+
+/-- The read-only operations (`top`, `top2`, `top3` and the size queries) never change the stack - whether they
+    succeed or report underflow. -/
+theorem reads_leave_unchanged (s : SStack α) (op : StackOp α)
+    (h : match op with
+      | .top | .top2 | .top3 | .size | .isEmpty | .isFull | .maxSize => True
+      | _ => False) :
+    (s.step op).1 = s := by
+  cases op with
+  | top => simp only [SStack.step]; split <;> rfl
+  | top2 => simp only [SStack.step]; split <;> rfl
+  | top3 => simp only [SStack.step]; split <;> rfl
+  | size | isEmpty | isFull | maxSize => rfl
+  | _ => simp at h
+
+/-- Reading shows exactly what removing would hand out: `top`/`top2`/`top3` return the same values (top first) or
+    the same underflow as `pop`/`pop2`/`pop3`. -/
+theorem top_shows_what_pop_removes (s : SStack α) :
+    (s.step .top).2 = (s.step .pop).2 ∧ (s.step .top2).2 = (s.step .pop2).2 ∧
+    (s.step .top3).2 = (s.step .pop3).2 := by
+  obtain ⟨m, items⟩ := s
+  refine ⟨?_, ?_, ?_⟩
+  · cases items <;> simp [SStack.step]
+  · match items with
+    | [] | [_] | _ :: _ :: _ => simp [SStack.step]
+  · match items with
+    | [] | [_] | [_, _] | _ :: _ :: _ :: _ => simp [SStack.step]
+
+/-- Removing two (three) at once is removing one after the other: the values come out most recent first. -/
+theorem pop2_is_two_pops (s : SStack α) (x y : α) (r : List α) (h : s.items = x :: y :: r) :
+    s.step .pop2 = ({ s with items := r }, .v2 x y) ∧
+    s.run [.pop, .pop] = ({ s with items := r }, [.v1 x, .v1 y]) := by
+  obtain ⟨m, items⟩ := s
+  simp only at h; subst h
+  simp [SStack.step, SStack.run]
+
+theorem pop3_is_three_pops (s : SStack α) (x y z : α) (r : List α) (h : s.items = x :: y :: z :: r) :
+    s.step .pop3 = ({ s with items := r }, .v3 x y z) ∧
+    s.run [.pop, .pop, .pop] = ({ s with items := r }, [.v1 x, .v1 y, .v1 z]) := by
+  obtain ⟨m, items⟩ := s
+  simp only at h; subst h
+  simp [SStack.step, SStack.run]
+
+/-- pushing a list of values one by one (there is room for all of them): the last one pushed is on top -/
+theorem run_pushes (s : SStack α) (vs : List α) (h : vs.length + s.items.length ≤ s.max) :
+    s.run (vs.map .push) = ({ s with items := vs.reverse ++ s.items }, vs.map fun _ => .unit) := by
+  induction vs generalizing s with
+  | nil => simp [SStack.run]
+  | cons v vs ih =>
+    have hlt : ¬ s.items.length ≥ s.max := by simp only [List.length_cons] at h; omega
+    have h' : vs.length + (v :: s.items).length ≤ s.max := by simp only [List.length_cons] at h ⊢; omega
+    simp only [List.map_cons, SStack.run, SStack.step, if_neg hlt]
+    rw [ih { s with items := v :: s.items } h']
+    simp
+
+/-- popping as many values as a list `ws` on top of the stack has: they come out in the order of the list (top
+    first) and the rest stays -/
+theorem run_pops (s : SStack α) (ws r : List α) (h : s.items = ws ++ r) :
+    s.run (ws.map fun _ => .pop) = ({ s with items := r }, ws.map .v1) := by
+  induction ws generalizing s with
+  | nil => obtain ⟨m, items⟩ := s; simp only [List.nil_append] at h; subst h; simp [SStack.run]
+  | cons w ws ih =>
+    obtain ⟨m, items⟩ := s
+    simp only [List.cons_append] at h; subst h
+    simp only [List.map_cons, SStack.run, SStack.step]
+    rw [ih ⟨m, ws ++ r⟩ rfl]
+
+/-- **Last in, first out**, for histories of any length: push `vs` one by one and pop as many again - the values come
+    back in the reverse of the order they went in, and the stack is what it was. -/
+theorem lifo (s : SStack α) (vs : List α) (h : vs.length + s.items.length ≤ s.max) :
+    ((s.run (vs.map .push)).1.run (vs.map fun _ => .pop)) = (s, vs.reverse.map .v1) := by
+  rw [run_pushes s vs h]
+  have := run_pops { s with items := vs.reverse ++ s.items } vs.reverse s.items rfl
+  simp only [List.map_reverse] at this ⊢
+  have hlen : (vs.map fun _ => (StackOp.pop : StackOp α)) = (vs.map fun _ => (StackOp.pop : StackOp α)).reverse := by
+    clear this h
+    induction vs with
+    | nil => rfl
+    | cons v vs ih =>
+      simp only [List.map_cons, List.reverse_cons]
+      rw [← ih]
+      clear ih
+      induction vs with
+      | nil => rfl
+      | cons w ws ih2 => simp only [List.map_cons, List.cons_append]; rw [← ih2]
+  rw [hlen, this]
+
+/-- … and the same on the **Impl** (the Rust-shaped vector code), through the refinement: the outputs of
+    push-all-then-pop-all are the values in reverse order. -/
+theorem impl_lifo (s : Stack α) (vs : List α) (h : vs.length + s.size ≤ s.max) :
+    (s.run (vs.map .push ++ vs.map fun _ => .pop)).2 =
+      (vs.map fun _ => StackOut.unit) ++ vs.reverse.map .v1 := by
+  have hr := (history s (vs.map .push ++ vs.map fun _ => .pop)).2
+  rw [hr]
+  have hsz : vs.length + s.abs.items.length ≤ s.abs.max := by simpa [Stack.abs, Stack.size] using h
+  have run_append : ∀ (t : SStack α) (a b : List (StackOp α)),
+      (t.run (a ++ b)).2 = (t.run a).2 ++ ((t.run a).1.run b).2 := by
+    intro t a
+    induction a generalizing t with
+    | nil => intro b; simp [SStack.run]
+    | cons o a ih => intro b; simp only [List.cons_append, SStack.run]; rw [ih]
+  rw [run_append, lifo s.abs vs hsz, run_pushes s.abs vs hsz]
+
 /-! Non-vacuity: concrete histories meeting the hypotheses, evaluated by the kernel. -/
 
 /-- `push_many [1,2,3]; set_max 1; push 4` is refused and leaves the three elements
@@ -212,5 +317,9 @@ example : ((Stack.empty 10 : Stack Nat).run
 example : ((Stack.empty 2 : Stack Nat).run
     [.tryExtend [1, 2, 3], .size, .tryExtend [7, 8], .top2, .pop3]).2 =
     [.ext (some .overflow) 3, .nat 0, .ext none 2, .v2 7 8, .err (.underflow 3 2)] := by decide
+
+/-- `lifo` on a concrete stack with old contents: three values go in and come back reversed -/
+example : (((⟨5, [9, 8]⟩ : SStack Nat).run ([1, 2, 3].map .push)).1.run ([1, 2, 3].map fun _ => .pop)) =
+    (⟨5, [9, 8]⟩, [.v1 3, .v1 2, .v1 1]) := by decide
 
 end Uec.Props.C04
